@@ -54,7 +54,7 @@
    of the C++).   MONITORED ONLY (batch vs single, round trip, finite differences):
    NeuronLayer, RBFLayer, CMACMap, KernelExpansion, Ensemble, heterogeneous concatenations with optimisation flags. *)
 From Coq Require Import List Arith Bool ZArith Ring Lia.
-From SharkV Require Import C04Model C04Aux C04Proofs C04Conv C04SumProofs C04ConvProofs C04ConvDerivProofs C04ConvThmProofs C04ConvDualProofs C04Pool C04PoolProofs.
+From SharkV Require Import C04Model C04Aux C04Proofs C04Conv C04SumProofs C04ConvProofs C04ConvDerivProofs C04ConvThmProofs C04ConvDualProofs C04Pool C04PoolProofs C04Het C04HetProofs C04KindProofs.
 Import ListNotations.
 
 (* ---------------- batch = single ---------------- *)
@@ -442,3 +442,118 @@ Theorem C04_resize_derivative :
           (mul t (fr A zero add mul (resize_wid zero add mul rsub rdiv ropp ofnat floorn g Cf) dX)).
 Proof. exact resize_batch_derivative. Qed.
 Print Assumptions C04_resize_derivative.
+
+(* ======================= ConcatenatedModel over arbitrary layers with optimisation flags (C04Het.v) ======================= *)
+(* setParameterVector / parameterVector skip frozen layers: the round trip is the identity, the length is numberOfParameters
+   (= the sum over the OPTIMISED layers), flags and layer kinds are untouched and every frozen layer keeps its parameters *)
+Theorem C04_het_param_roundtrip :
+  forall (A : Type) (N : hnet A) (t : list A),
+    length t = hnet_np N ->
+    hnet_params (hnet_set N t) = t /\
+    length (hnet_params (hnet_set N t)) = hnet_np N /\
+    hnet_np (hnet_set N t) = hnet_np N /\
+    map (@h_opt A) (hnet_set N t) = map (@h_opt A) N /\
+    map (@h_kind A) (hnet_set N t) = map (@h_kind A) N /\
+    (forall i l, nth_error N i = Some l -> h_opt l = false -> nth_error (hnet_set N t) i = Some l).
+Proof. exact hnet_roundtrip. Qed.
+Print Assumptions C04_het_param_roundtrip.
+
+Theorem C04_het_batch_eq_single :
+  forall (A : Type) (N : hnet A) (X X' : list (list A)) (r r' : nat),
+    Forall (fun l => k_rowwise A (h_kind l)) N ->
+    r < length X -> r' < length X' -> nth r X [] = nth r' X' [] ->
+    nth r (hnet_eval N X) [] = hnet_eval1 N (nth r X []) /\
+    nth r (hnet_eval N X) [] = nth r' (hnet_eval N X') [].
+Proof. exact hnet_batch_eq_single. Qed.
+Print Assumptions C04_het_batch_eq_single.
+
+(* chain rule with frozen layers: if for every layer the coded derivatives are the adjoint of a tangent map of that layer (kind_ok),
+   then for the concatenation, with direction blocks only for the optimised layers (frozen layers do not move):
+   <C, composed tangent> = <gradient of weightedDerivatives, direction> + <input derivative, dX>; the gradient has exactly
+   numberOfParameters entries (blocks in layer order, none for frozen or parameter-free layers); weightedInputDerivative and
+   weightedParameterDerivative (which skips the input derivative of the first layer) return the same two results *)
+Theorem C04_het_chain_rule :
+  forall (A : Type) (zero one : A) (add mul sub : A -> A -> A) (opp : A -> A),
+    ring_theory zero one add mul sub opp eq ->
+    forall (N : tnet A) (dps : list (list A)) (nin nout : nat) (X dX C : list (list A)),
+      chain_ok A zero add mul nin N dps nout ->
+      rows nin X -> rows nin dX -> length dX = length X -> rows nout C -> length C = length X ->
+      fr A zero add mul C (tnet_tan A N dps X dX) =
+        add (dot zero add mul (fst (hnet_wd (map fst N) X C)) (hdir A N dps)) (fr A zero add mul (snd (hnet_wd (map fst N) X C)) dX) /\
+      length (fst (hnet_wd (map fst N) X C)) = length (hdir A N dps) /\
+      length (hdir A N dps) = hnet_np (map fst N) /\
+      rows nin (snd (hnet_wd (map fst N) X C)) /\ length (snd (hnet_wd (map fst N) X C)) = length X /\
+      hnet_wid (map fst N) X C = snd (hnet_wd (map fst N) X C) /\
+      (N <> [] -> hnet_wpd (map fst N) X C = fst (hnet_wd (map fst N) X C)).
+Proof. exact het_chain_rule. Qed.
+Print Assumptions C04_het_chain_rule.
+
+(* the hypotheses of C04_het_chain_rule / C04_het_batch_eq_single hold for the modelled layer kinds: Conv2DModel, LinearModel and
+   NeuronLayer with an element-wise activation pair (phi, dphi) (tangent = the same code over dual numbers, resp. dphi(phi x) dx),
+   PoolingLayer (tangent = selection at the coded arg max), ResizeLayer (tangent = the linear map itself).
+   `_partial`: softmax / normaliser activations and Normalizer, RBFLayer, CMACMap, KernelExpansion layers are not covered. *)
+Theorem C04_het_layer_kinds_ok_partial :
+  forall (A : Type) (zero one : A) (add mul sub : A -> A -> A) (opp : A -> A),
+    ring_theory zero one add mul sub opp eq ->
+    (forall (g : cgeo) (phi dphi : A -> A), geo_ok g ->
+        kind_ok A zero add mul (conv_kind zero add mul g (ew_act mul phi dphi)) (conv_tan A zero add mul g phi dphi)) /\
+    (forall (nin nout : nat) (off : bool) (phi dphi : A -> A),
+        kind_ok A zero add mul (lin_kind zero add mul nin nout off (ew_act mul phi dphi)) (lin_tan A zero add mul nin nout off phi dphi)) /\
+    (forall (n : nat) (phi dphi : A -> A),
+        kind_ok A zero add mul (neu_kind n (ew_act mul phi dphi)) (neu_tan A mul phi dphi)) /\
+    (forall (ltb : A -> A -> bool) (g : pgeo), kind_ok A zero add mul (pool_kind zero add ltb g) (pool_tan A zero ltb g)) /\
+    (forall (rsub rdiv : A -> A -> A) (ropp : A -> A) (ofnat : nat -> A) (floorn : A -> nat) (g : rgeo),
+        kind_ok A zero add mul (resize_kind zero add mul rsub rdiv ropp ofnat floorn g)
+                (resize_tan A zero add mul rsub rdiv ropp ofnat floorn g)).
+Proof.
+  intros A zero one add mul sub opp Rth. split; [|split; [|split; [|split]]].
+  - intros; apply (conv_kind_ok A zero one add mul sub opp Rth); auto.
+  - intros; apply (lin_kind_ok A zero one add mul sub opp Rth).
+  - intros; apply (neu_kind_ok A zero one add mul sub opp Rth).
+  - intros; apply (pool_kind_ok A zero one add mul sub opp Rth).
+  - intros; apply (resize_kind_ok A zero one add mul sub opp Rth).
+Qed.
+Print Assumptions C04_het_layer_kinds_ok_partial.
+
+Theorem C04_het_layer_kinds_rowwise :
+  forall (A : Type) (zero one : A) (add mul sub : A -> A -> A) (opp : A -> A),
+    ring_theory zero one add mul sub opp eq ->
+    (forall (g : cgeo) (a : act A), geo_ok g -> k_rowwise A (conv_kind zero add mul g a)) /\
+    (forall (nin nout : nat) (off : bool) (a : act A), k_rowwise A (lin_kind zero add mul nin nout off a)) /\
+    (forall (n : nat) (a : act A), k_rowwise A (neu_kind n a)) /\
+    (forall (ltb : A -> A -> bool) (g : pgeo), k_rowwise A (pool_kind zero add ltb g)) /\
+    (forall (rsub rdiv : A -> A -> A) (ropp : A -> A) (ofnat : nat -> A) (floorn : A -> nat) (g : rgeo),
+        k_rowwise A (resize_kind zero add mul rsub rdiv ropp ofnat floorn g)).
+Proof.
+  intros A zero one add mul sub opp Rth. split; [|split; [|split; [|split]]]; intros.
+  - apply conv_rowwise; auto.
+  - apply (lin_rowwise A zero one add mul sub opp Rth).
+  - apply neu_rowwise.
+  - apply pool_rowwise.
+  - apply resize_rowwise.
+Qed.
+Print Assumptions C04_het_layer_kinds_rowwise.
+
+(* chain_ok is satisfiable: Conv2DModel (2x2 image, 1 channel, 1 filter 1x1, ZeroPad; FROZEN) -> PoolingLayer 2x2 -> LinearModel 1 -> 2
+   (optimised) over Z; the direction has a zero block for the frozen layer and the parameter vector of the concatenation has only the
+   3 entries of the LinearModel *)
+Example C04_het_chain_ok_example :
+  let g := {| gC := 1; gF := 1; gH := 2; gW := 2; gfh := 1; gfw := 1; gpad := true |} in
+  let pg := {| pH := 2; pW := 2; pC := 1; pph := 2; ppw := 2 |} in
+  let idf := fun x : Z => x in let onef := fun _ : Z => 1%Z in
+  let N : tnet Z :=
+    [({| h_opt := false; h_kind := conv_kind 0%Z Z.add Z.mul g (ew_act Z.mul idf onef); h_par := [2; 1]%Z |}, conv_tan Z 0%Z Z.add Z.mul g idf onef);
+     ({| h_opt := true; h_kind := pool_kind 0%Z Z.add Z.ltb pg; h_par := [] |}, pool_tan Z 0%Z Z.ltb pg);
+     ({| h_opt := true; h_kind := lin_kind 0%Z Z.add Z.mul 1 2 false (ew_act Z.mul idf onef); h_par := [3; -1]%Z |},
+      lin_tan Z 0%Z Z.add Z.mul 1 2 false idf onef)] in
+  chain_ok Z 0%Z Z.add Z.mul 4 N [[0; 0]; []; [1; 2]]%Z 2 /\ hnet_np (map fst N) = 2 /\
+  hnet_eval (map fst N) [[1; 4; -2; 3]]%Z = [[27; -9]]%Z.
+Proof.
+  cbv zeta. split; [|split; [reflexivity|vm_compute; reflexivity]].
+  cbn [chain_ok]. split; [reflexivity|]. split; [reflexivity|]. split; [reflexivity|]. split; [reflexivity|]. split; [|split; [reflexivity|]].
+  2: split; [reflexivity|]. 2: split; [reflexivity|]. 2: split; [discriminate|]. 2: split; [|split; [reflexivity|]].
+  3: split; [reflexivity|]. 3: split; [reflexivity|]. 3: split; [discriminate|]. 3: split; [|reflexivity].
+  - apply (conv_kind_ok Z 0%Z 1%Z Z.add Z.mul Z.sub Z.opp C04_Z_is_a_ring). unfold geo_ok; simpl; repeat split; try lia; intros; discriminate.
+  - apply (pool_kind_ok Z 0%Z 1%Z Z.add Z.mul Z.sub Z.opp C04_Z_is_a_ring).
+  - apply (lin_kind_ok Z 0%Z 1%Z Z.add Z.mul Z.sub Z.opp C04_Z_is_a_ring).
+Qed.
